@@ -98,6 +98,55 @@ theorem C30_sync (a : Nat) (ops : List Op) (ha0 : BfeVerif.Generated.C30.initial
   rw [h1]
   simpa [Hist.init] using h2
 
+/-! ### RFC 7541 §4.2 on the encoder's side: size updates only in front of the first field written after a change -/
+
+/-- what `WriteField` writes is the pending size update(s) followed by ONE field representation, whose first octet
+    is never that of a size update (001xxxxx) … -/
+theorem C30_field_repr_not_update (e : Enc) (f : HF) :
+    (e.writeField T f).2 = e.flush.2 ++ (e.flush.1.encodeField T f).2 ∧
+    ∃ b r, (e.flush.1.encodeField T f).2 = b :: r ∧ ¬ (32 ≤ b ∧ b < 64) := by
+  refine ⟨rfl, ?_⟩
+  generalize e.flush.1 = e1
+  unfold Enc.encodeField
+  simp only []
+  by_cases hm : (searchTable T e1.tab.ents f).2 = true
+  · simp only [hm, if_true]
+    obtain ⟨b, r, hbr, hb⟩ := appendVarInt_head 7 (searchTable T e1.tab.ents f).1
+    exact ⟨b + 128, r, by simp [hbr, orFirst], by omega⟩
+  · have hm' : (searchTable T e1.tab.ents f).2 = false := by simpa using hm
+    simp only [hm', Bool.false_eq_true, if_false]
+    generalize hidx : (!f.sensitive && decide (f.size ≤ e1.tab.maxSize)) = indexing
+    have hind : indexing = true → f.sensitive = false := by
+      intro hi; rw [← hidx] at hi; simp at hi; exact hi.1
+    obtain ⟨tb, n, it, hk, htb, hn, _, _⟩ := litKind_of indexing f.sensitive hind
+    rw [htb, hn]
+    by_cases h0 : (searchTable T e1.tab.ents f).1 = 0
+    · simp only [h0, if_true]
+      refine ⟨tb, appendHpackString T f.name ++ appendHpackString T f.value, by simp, ?_⟩
+      rcases hk with ⟨rfl, _, _⟩ | ⟨rfl, _, _⟩ | ⟨rfl, _, _⟩ <;> omega
+    · simp only [h0, if_false]
+      obtain ⟨b, r, hbr, hb⟩ := appendVarInt_head n (searchTable T e1.tab.ents f).1
+      refine ⟨b + tb, r ++ appendHpackString T f.value, by simp [hbr, orFirst], ?_⟩
+      rcases hk with ⟨rfl, rfl, _⟩ | ⟨rfl, rfl, _⟩ | ⟨rfl, rfl, _⟩ <;> omega
+
+/-- … and afterwards nothing is pending, so the next `WriteField` (no Set… call in between) writes no size update:
+    updates can only stand in front of the first field written after a size change. -/
+theorem C30_no_update_unless_pending (e : Enc) (f : HF) :
+    (e.writeField T f).1.pending = false ∧ (e.pending = false → e.flush.2 = []) := by
+  constructor
+  · have hfl : e.flush.1.pending = false := by
+      unfold Enc.flush; split
+      · rfl
+      · rename_i h; simpa using h
+    show (e.flush.1.encodeField T f).1.pending = false
+    generalize e.flush.1 = e1 at hfl
+    unfold Enc.encodeField
+    simp only []
+    split
+    · exact hfl
+    · split <;> exact hfl
+  · intro h; simp [Enc.flush, h]
+
 /-- non-vacuity / the history that desynchronised the tables before the fix of SetMaxDynamicTableSizeLimit
     (limit 50 evicts, limit 8192, max 4096: only "4096" was announced): now one record per block, all good -/
 example : (runHist T 8192 [.field ⟨[120, 45, 97], List.replicate 20 97, false⟩, .endBlock, .setLimit 50, .setLimit 8192,
